@@ -671,9 +671,15 @@ def borrowed_db_history_case(args):
             DP.DatasetProcessor.collect_reads = die2
     rca = run.run_isoquant(run.base_argv(paths, outA), home, os.path.join(d, "a.txt"), pre_hook=kill_hook)
     borrowed = "Gene annotation file found" in open(os.path.join(d, "a.txt")).read()
-    if rcs or rcc or rca != 9 or not borrowed:
+    if rcs or rcc or rca != 9:
+        # ordinary runs of the history that fail are violations themselves (each of them succeeds alone)
+        msg = "solo run exit %d, run C exit %d, run A exit %d (9 = killed by the harness): %s" % (
+            rcs, rcc, rca, open(os.path.join(d, "solo.txt" if rcs else ("c.txt" if rcc else "a.txt"))).read()[-300:])
         shutil.rmtree(d, ignore_errors=True)
-        raise core.HarnessError("history set-up failed: solo %d, C %d, A %d (9 expected), borrowed=%s" % (rcs, rcc, rca, borrowed))
+        return ("history", kill_at, owner), [("history:run-failed", msg)]
+    if not borrowed:
+        shutil.rmtree(d, ignore_errors=True)
+        raise core.HarnessError("history set-up failed: run A did not borrow C's conversion")
     if owner == "other-annotation":
         av = run.base_argv(paths, outC) + ["--force"]
         av[av.index("--genedb") + 1] = other
